@@ -22,7 +22,7 @@ import (
 	"verif/harness/xt"
 )
 
-const c01Rule = "rapid-generated histories (6..40 operations) over one provider: sso (valid AuthnRequest accepted through the real SSO endpoint), seed (stored request inserted directly: pending or done, with or without a user attached, bindings POST / Redirect / Artifact / empty, any consumer URL incl. empty, ids that are case / blank / percent-encoding twins of each other), complete (login completion for an existing or unknown user), fault (user-info, signing-key - error / nil / no key / no certificate / empty certificate -, or application lookup failure on the next callback) and callback with id expressions {exact, unknown, empty, upper-case twin, blank-padded, percent-encoded twin, '+' / blank / separator twins, prefix, id of another session} placed in the query, the form body, both, or repeated - or handed to the exported Provider.AuthCallbackResponse the way an application with its own login UI does. Invariant after every callback: a Success Response implies that one of the supplied id values names a stored request that is done, and the NameID / attributes are those of that request's user; any other reply has a non-Success status (or is a plain HTTP error) and its decoded layers contain no user marker, no non-empty NameID, no AttributeValue and no SignatureValue; user info is fetched only for a named, done request. Evaluations count callbacks (the unit the invariant is evaluated on), not histories. Non-trivial: a callback issued while at least one pending and one done request exist. Distinct by (state of the named ids, id expression, placement, binding, fault)."
+const c01Rule = "rapid-generated histories (6..40 operations) over one provider: sso (valid AuthnRequest accepted through the real SSO endpoint), seed (stored request inserted directly: pending or done, with or without a user attached, bindings POST / Redirect / Artifact / empty, any consumer URL incl. empty, ids that are case / blank / percent-encoding twins of each other), complete (login completion for an existing or unknown user; also landing in the middle of a callback: the storage hands out its live record and the completion - user attached and done set, atomically - falls before the handler's n-th read of Done()/GetUserID()), fault (user-info, signing-key - error / nil / no key / no certificate / empty certificate -, or application lookup failure on the next callback) and callback with id expressions {exact, unknown, empty, upper-case twin, blank-padded, percent-encoded twin, '+' / blank / separator twins, prefix, id of another session} placed in the query, the form body, both, or repeated - or handed to the exported Provider.AuthCallbackResponse the way an application with its own login UI does. Invariant after every callback: a Success Response implies that one of the supplied id values names a stored request that is done, and the NameID / attributes are those of that request's user; any other reply has a non-Success status (or is a plain HTTP error) and its decoded layers contain no user marker, no non-empty NameID, no AttributeValue and no SignatureValue; user info is fetched only for a named, done request. Evaluations count callbacks (the unit the invariant is evaluated on), not histories. Non-trivial: a callback issued while at least one pending and one done request exist. Distinct by (state of the named ids, id expression, placement, binding, fault)."
 
 type C01Op struct {
 	Kind      string             `json:"kind"` // sso | seed | complete | fault | callback
@@ -37,6 +37,10 @@ type C01Op struct {
 	Placement string             `json:"placement,omitempty"`
 	FaultOp   string             `json:"fault_op,omitempty"`
 	FaultKind string             `json:"fault_kind,omitempty"`
+	// LiveAt > 0: the storage hands out its live record for the named (pending) request and the login completion by LiveUser
+	// lands before the handler's LiveAt-th access to Done()/GetUserID() - a completion interleaved with one callback.
+	LiveAt   int    `json:"live_at,omitempty"`
+	LiveUser string `json:"live_user,omitempty"`
 }
 
 type C01Case struct {
@@ -101,6 +105,11 @@ func genC01Case(t *rapid.T) C01Case {
 			op.Ref2 = rapid.IntRange(0, 50).Draw(t, "ref2")
 			op.IDExpr = rapid.SampledFrom(c01IDExprs).Draw(t, "idexpr")
 			op.Placement = rapid.SampledFrom(c01Placements).Draw(t, "placement")
+			if rapid.IntRange(0, 4).Draw(t, "live") == 0 {
+				op.IDExpr = "exact"
+				op.LiveAt = rapid.IntRange(1, 5).Draw(t, "liveat")
+				op.LiveUser = rapid.SampledFrom([]string{"uid-0", "uid-1", "uid-big"}).Draw(t, "liveuser")
+			}
 		}
 		c.Ops = append(c.Ops, op)
 	}
@@ -274,11 +283,25 @@ func c01Execute(c C01Case, st *c01Stats) []*ev.Violation {
 					}
 				}
 			}
+			live := false
+			if r := w.Store.Request(v1); op.LiveAt > 0 && r != nil && !r.S.Done {
+				live = true
+				w.Store.ArmLive(v1, op.LiveAt-1, op.LiveUser)
+			}
 			var rep obs.Reply
 			if op.Placement == "api" {
 				rep = apiCallback(w, defHost, v1)
 			} else {
 				rep = obs.Do(w.Handler, hr)
+			}
+			if live {
+				if w.Store.LiveFired() {
+					// the completion landed during this callback: from then on the request is done, by LiveUser and nobody else
+					doneNamed = append(doneNamed, named{v1, w.Store.Request(v1).S})
+					stateOfFirst = "completing"
+				}
+				w.Store.DisarmLive()
+				st.classes[fmt.Sprintf("live-completion/at-access-%d/landed=%v", op.LiveAt, stateOfFirst == "completing")]++
 			}
 			calls := w.Store.Calls()
 			faultName := "none"
@@ -329,6 +352,15 @@ func c01Execute(c C01Case, st *c01Stats) []*ev.Violation {
 			for _, cl := range calls {
 				if cl.Op == "SetUserinfoWithUserID" && len(doneNamed) == 0 {
 					return fail("userinfo-fetched-without-done-request", "SetUserinfoWithUserID%v called although no supplied id names a completed request (supplied %q)", cl.Args, supplied)
+				}
+				if cl.Op == "SetUserinfoWithUserID" && len(cl.Args) >= 2 {
+					ok := false
+					for _, nreq := range doneNamed {
+						ok = ok || nreq.spec.UserID == cl.Args[1]
+					}
+					if !ok {
+						return fail("userinfo-fetched-for-another-user", "SetUserinfoWithUserID%v: the user is not the one who completed any named request %v", cl.Args, doneNamed)
+					}
 				}
 			}
 			if resp.Success() {
